@@ -174,6 +174,16 @@ def first_diff(a, b, n):
     return None
 
 
+_seen = {}
+
+
+def viol(ctx, what, rep, nfi=False):
+    """at most 3 replays per kind of disagreement (a real defect shows on thousands of paths)"""
+    _seen[what] = _seen.get(what, 0) + 1
+    if _seen[what] <= 3:
+        ctx.violation(what, rep, nfi=nfi)
+
+
 def bad(o):
     return o in ("PANIC", "MISSING", "STACKOVERFLOW") or o.startswith("PARSEFAIL")
 
@@ -194,10 +204,10 @@ def check_parse(ctx, cases):
         stats[key] = stats.get(key, 0) + 1
         ctx.note_case(line, v is not None and v[0] == 0 and len(g) > 1)
         if bad(c):
-            ctx.violation("globset panicked or harness failed while parsing a glob: %s" % c,
+            viol(ctx, "globset panicked or harness failed while parsing a glob: %s" % c,
                           dict(kind=1201, opts=o, glob=g.decode("latin1"), line=line, code=c, model=m))
         elif m != c:
-            ctx.violation("glob parser/strategy: model and code disagree (tokens, strategy or error kind; theorems "
+            viol(ctx, "glob parser/strategy: model and code disagree (tokens, strategy or error kind; theorems "
                           "parse_never_panics / strategy_eq_regex no longer describe the code)",
                           dict(kind=1201, opts=o, glob=g.decode("latin1"), line=line, model=m, code=c), nfi=True)
 
@@ -214,11 +224,11 @@ def check_glob(ctx, cases, L, extras):
     for (o, g), line, m, c in zip(cases, lines, mo, co):
         rep = dict(kind=1202, opts=o, glob=g.decode("latin1"), L=L, extras=[p.hex() for p in extras], line=line)
         if bad(c) or bad(m):
-            ctx.violation("harness/model failure on a glob case: code=%s model=%s" % (c[:20], m[:20]), rep)
+            viol(ctx, "harness/model failure on a glob case: code=%s model=%s" % (c[:20], m[:20]), rep)
             continue
         mv, cv = parse_val(m), parse_val(c)
         if mv[0] != cv[0]:
-            ctx.violation("glob accepted by one of model/code and rejected by the other", dict(rep, model=m[:40], code=c[:40]),
+            viol(ctx, "glob accepted by one of model/code and rejected by the other", dict(rep, model=m[:40], code=c[:40]),
                           nfi=True)
             continue
         if cv[0] == 1:
@@ -241,24 +251,24 @@ def check_glob(ctx, cases, L, extras):
         # the property on the code itself: set (strategies) = matcher (regex), for every path
         d = first_diff(c_set, c_re, n) or first_diff(c_setm, c_re, n)
         if d:
-            ctx.violation("GlobSet of one glob answers differently from the glob's own matcher (strategy != regex)",
+            viol(ctx, "GlobSet of one glob answers differently from the glob's own matcher (strategy != regex)",
                           where(d))
         # link 2: model vs code
         d = first_diff(m_re, c_re, n)
         if d:
             od = oracle is not None and first_diff(oracle, c_re, n) is None
-            ctx.violation("tmatch (meaning of the emitted regex) differs from GlobMatcher::is_match "
+            viol(ctx, "tmatch (meaning of the emitted regex) differs from GlobMatcher::is_match "
                           "(theorem strategy_eq_regex no longer describes the code)", where(d), nfi=od)
         d = first_diff(m_st, c_set, n)
         if d:
-            ctx.violation("model strategy answer differs from GlobSet::is_match of the one-glob set", where(d),
+            viol(ctx, "model strategy answer differs from GlobSet::is_match of the one-glob set", where(d),
                           nfi=first_diff(c_set, c_re, n) is None)
         # the documented syntax: independent oracle vs code
         if oracle is not None:
             ctx.cov["oracle_globs"] = ctx.cov.get("oracle_globs", 0) + 1
             d = first_diff(oracle, c_re, n)
             if d:
-                ctx.violation("glob does not mean what the documented syntax says (independent matcher disagrees "
+                viol(ctx, "glob does not mean what the documented syntax says (independent matcher disagrees "
                               "with GlobMatcher::is_match)", where(d))
 
 
@@ -274,12 +284,12 @@ def check_set(ctx, cases, L, extras):
         rep = dict(kind=1203, globs=[(o, g.decode("latin1")) for o, g in gs], L=L, extras=[p.hex() for p in extras],
                    line=line)
         if bad(c) or bad(m):
-            ctx.violation("harness/model failure on a glob set case: code=%s model=%s" % (c[:20], m[:20]), rep)
+            viol(ctx, "harness/model failure on a glob set case: code=%s model=%s" % (c[:20], m[:20]), rep)
             continue
         mv, cv = parse_val(m), parse_val(c)
         if mv[0] != cv[0] or cv[0] == 1:
             if mv[0] != cv[0]:
-                ctx.violation("glob set accepted by one of model/code only", rep, nfi=True)
+                viol(ctx, "glob set accepted by one of model/code only", rep, nfi=True)
             continue
         c_m, c_is, c_f = cv[1], bitsval(cv[2]), cv[3]
         m_m, m_is = mv[1], bitsval(mv[2])
@@ -291,20 +301,20 @@ def check_set(ctx, cases, L, extras):
             w = dict(rep, path=paths[i].decode("latin1"), path_hex=paths[i].hex(), set_matches=cm, member_matches=cf,
                      model=mm)
             if cm != cf:
-                ctx.violation("GlobSet::matches is not the ascending list of the individually matching globs", w)
+                viol(ctx, "GlobSet::matches is not the ascending list of the individually matching globs", w)
                 break
             if mm != cm:
-                ctx.violation("model set_matches differs from GlobSet::matches (theorem set_eq_members no longer "
+                viol(ctx, "model set_matches differs from GlobSet::matches (theorem set_eq_members no longer "
                               "describes the code)", w, nfi=True)
                 break
         ci = unpack(c_is, n)
         for i in range(n):
             if ci[i] != (1 if len(c_f[i]) else 0):
-                ctx.violation("GlobSet::is_match differs from 'some member glob matches'",
+                viol(ctx, "GlobSet::is_match differs from 'some member glob matches'",
                               dict(rep, path=paths[i].decode("latin1"), path_hex=paths[i].hex()))
                 break
         if first_diff(m_is, c_is, n):
-            ctx.violation("model set_is_match differs from GlobSet::is_match", rep, nfi=True)
+            viol(ctx, "model set_is_match differs from GlobSet::is_match", rep, nfi=True)
         ctx.note_case(line, multi > 0)
         ctx.cov["set_path_evaluations"] = ctx.cov.get("set_path_evaluations", 0) + n
         ctx.cov["sets_with_multi_match_paths"] = ctx.cov.get("sets_with_multi_match_paths", 0) + (1 if multi else 0)
@@ -324,7 +334,7 @@ def d3_replay(ctx):
             got = sorted(p.stdout.decode().split())
             ctx.cov["cli_runs"] = ctx.cov.get("cli_runs", 0) + 1
             if got != want:
-                ctx.violation("rg --files -g %r lists %r, expected %r (defect D3: file names ending in '.')"
+                viol(ctx, "rg --files -g %r lists %r, expected %r (defect D3: file names ending in '.')"
                               % (glob, got, want), dict(kind="cli-d3", glob=glob, got=got, want=want))
 
 
